@@ -45,6 +45,7 @@ type pipelineStateMachine struct {
 	completedCallbackFn func(err error)          // pipeline execute completed will invoke
 	mutex               sync.Mutex
 	completed           atomic.Bool
+	err                 error // first error reported by a stage, guarded by mutex
 
 	tracker *trackerpkg.StageTracker
 }
@@ -93,6 +94,10 @@ func (sm *pipelineStateMachine) executeStage(parentStageID, stageID string, stag
 // completeStage tracks stage complete execution state.
 func (sm *pipelineStateMachine) completeStage(stageID string, err error) {
 	sm.mutex.Lock()
+	if err != nil && sm.err == nil {
+		// remember the first failure: a stage that completes later without error must not hide it
+		sm.err = err
+	}
 	if s, ok := sm.stages[stageID]; ok {
 		var errMsg string
 		if err != nil {
@@ -115,9 +120,17 @@ func (sm *pipelineStateMachine) completeStage(stageID string, err error) {
 	sm.mutex.Unlock()
 
 	if sm.pending.Dec() == 0 {
-		// check if all stages execute completed
-		sm.complete(err)
+		// check if all stages execute completed, report the first failure of any stage
+		sm.complete(sm.firstError())
 	}
+}
+
+// firstError returns the first error reported by a stage, nil if no stage failed.
+func (sm *pipelineStateMachine) firstError() error {
+	sm.mutex.Lock()
+	defer sm.mutex.Unlock()
+
+	return sm.err
 }
 
 // complete executes pipeline completed, invokes completed callback.
